@@ -130,6 +130,11 @@ def check(R):
             k = rv['a'][0].get('k') if rv.get('op') == 'use' else None
             if k is not None and 'v' in k:
                 const_stores.append((i, j, k['v']))
+            elif rv.get('op') == 'use' and op_place(rv['a'][0]) and len(op_place(rv['a'][0])) == 1:
+                # `self.ctr_bitmap = if c { f(..) } else { K }`: the constant arm defines the merged temporary in its own block
+                for (dbb, di, kind, payload) in rp.defs.get(op_place(rv['a'][0])[0], ()):
+                    if kind == 'assign' and payload[1].get('op') == 'use' and 'k' in payload[1]['a'][0] and 'v' in payload[1]['a'][0]['k'] and not rp.is_cleanup(dbb):
+                        const_stores.append((dbb, di, payload[1]['a'][0]['k']['v']))
         # udiff > LEN edges: false edges of Le(udiff, LEN) / true edges of Gt(udiff, LEN)
         beyond = set()
         for bb, te_, fe_ in prims.cmp_guard_edges(rp, 'Le', is_udiff, is_len, symmetric=False):
